@@ -12,6 +12,7 @@ import (
 	"fmt"
 	"net"
 	"net/netip"
+	"strings"
 	"time"
 
 	"github.com/irai/packet"
@@ -50,7 +51,24 @@ func macN(k int) net.HardwareAddr {
 func init() {
 	impls["scale"] = func(a []string) string {
 		table, n := a[0], atoi(a[1])
-		setAllLoggers(false)
+		// "<table>.same": the SAME frame n times (one key); "<table>.cycle": a cycle of three keys /
+		// message types of one client; otherwise n distinct keys.  a[2] = T: debug log level
+		mode := ""
+		if i := strings.IndexByte(table, '.'); i >= 0 {
+			table, mode = table[:i], table[i+1:]
+		}
+		key := func(k int) int {
+			switch mode {
+			case "same":
+				return 7
+			case "cycle":
+				return 7 + k%3
+			}
+			return k
+		}
+		debug := len(a) > 2 && a[2] == "T"
+		setAllLoggers(debug)
+		defer setAllLoggers(false)
 		s, _ := lib.NewSession()
 		step := 0
 		var bad string
@@ -83,7 +101,8 @@ func init() {
 		switch table {
 		case "mdns", "dns", "nbns", "ssdp":
 			h := dns_naming.VerifNew(s)
-			for k := 0; k < n && bad == ""; k++ {
+			for k0 := 0; k0 < n && bad == ""; k0++ {
+				k := key(k0)
 				var f []byte
 				switch table {
 				case "mdns": // distinct (source MAC, transaction id): a new cache entry each
@@ -133,15 +152,19 @@ func init() {
 		case "dhcp":
 			h := dhcpHandler(s)
 			zero, bc := netip.AddrFrom4([4]byte{}), netip.MustParseAddr("255.255.255.255")
-			for k := 0; k < n && bad == ""; k++ {
+			for k0 := 0; k0 < n && bad == ""; k0++ {
+				k := key(k0)
 				p := make([]byte, 240)
 				p[0], p[1], p[2] = 1, 1, 6
 				p[4], p[5], p[6], p[7] = byte(k>>24), byte(k>>16), byte(k>>8), byte(k)
 				copy(p[28:34], macN(k))
 				copy(p[236:240], []byte{99, 130, 83, 99})
 				mt := byte(1)
-				if k%3 == 2 {
+				if k0%3 == 2 && mode != "same" { // DISCOVER, DISCOVER, REQUEST
 					mt = 3
+				}
+				if mode == "cycle" {
+					k = 7 // one client: DISCOVER / DISCOVER / REQUEST cycle
 				}
 				p = append(p, 53, 1, mt, 61, 7, 1)
 				p = append(p, macN(k)...)
@@ -161,9 +184,10 @@ func init() {
 			mc6 := net.HardwareAddr{0x33, 0x33, 0, 0, 0, 1}
 			all := netip.MustParseAddr("ff02::1")
 			hunts := 0
-			for k := 0; k < n && bad == ""; k++ {
+			for k0 := 0; k0 < n && bad == ""; k0++ {
+				k := key(k0)
 				lla := netip.AddrFrom16([16]byte{0xfe, 0x80, 0, 0, 0, 0, 0, 0, 0, 0xaa, byte(k >> 16), 0xff, 0xfe, byte(k >> 8), byte(k), 1})
-				if table == "icmp6hunt" && k%16 == 0 && hunts < 150 {
+				if table == "icmp6hunt" && k0%16 == 0 && hunts < 150 {
 					hunts++
 					do(func() { h.StartHunt(packet.Addr{MAC: macN(k), IP: lla}) })
 				}
@@ -182,8 +206,9 @@ func init() {
 		case "arp":
 			h, _ := arp_spoofer.New(s)
 			router := netip.MustParseAddr("192.168.0.11")
-			for k := 0; k < n && bad == ""; k++ {
-				if k%16 == 0 && k/16 < 150 {
+			for k0 := 0; k0 < n && bad == ""; k0++ {
+				k := key(k0)
+				if k0%16 == 0 && k0/16 < 150 {
 					do(func() { h.StartHunt(packet.Addr{MAC: macN(k), IP: ip4N(k)}) })
 				}
 				a := lib.MkARP(1, macN(k), ip4N(k), net.HardwareAddr{0, 0, 0, 0, 0, 0}, router)
